@@ -112,6 +112,13 @@ func (d *Device) AddFault(f Fault) {
 	d.mu.Unlock()
 }
 
+// ClearFaults drops the injected failures that have not fired.
+func (d *Device) ClearFaults() {
+	d.mu.Lock()
+	d.faults = nil
+	d.mu.Unlock()
+}
+
 func (d *Device) takeFault(kind string, n int64) *Fault {
 	for i := range d.faults {
 		if d.faults[i].Kind == kind && d.faults[i].Nth == n {
